@@ -83,7 +83,7 @@ func baselineVerdicts(repo, prop string) (map[string]Verdict, error) {
 	}
 	for r, fl := range c.Floors {
 		if c.Counts[r] < fl {
-			c.add("FLOOR", r, VIOLATION, 0, "floor")
+			c.add("FLOOR", r, UNDECIDED, 0, "floor")
 		}
 	}
 	out := map[string]Verdict{}
